@@ -48,6 +48,10 @@ ADAPTERS = [
     ("_typehints:ActionTypeHint.instantiate_classes", "value", (TOP,)),
     ("_typehints:ActionTypeHint.serialize", "value", (TOP,)),
     ("_typehints:ActionTypeHint._check_type", "value", (TOP,)),
+    # jsonnet external variables: parse_string / parse_path(ext_vars=d) hand the caller's dict down through the
+    # loader table (a dynamic dispatch the call graph does not follow), so the receiving end is checked itself
+    ("_jsonnet:ActionJsonnet.split_ext_vars", "ext_vars", (TOP, INTERIOR)),
+    ("_jsonnet:ActionJsonnet.parse", "ext_vars", (TOP, INTERIOR)),
 ]
 DEFAULT_WRITERS = {
     "_core:ActionsContainer.set_defaults": "set-up API that declares defaults",
